@@ -315,6 +315,11 @@ func (cs *autoGrowingCallFrameStack) SetSp(sp int) {
 		cs.segments[cs.segIdx] = nil
 		cs.segIdx--
 	}
+	if cs.segIdx < desiredSegIdx {
+		// sp is the slot just past the current, completely used segment (segSp == FramesPerSegment):
+		// the stack is already at depth sp and there is nothing to unwind.
+		return
+	}
 	cs.segSp = desiredFramesInLastSeg
 }
 
